@@ -202,7 +202,7 @@ def run_once(spec, balancer=None):
                     )
                     import pandas as pd
 
-                    df = pd.read_csv(out_file, keep_default_na=False, na_values=[])
+                    df = pd.read_csv(out_file, keep_default_na=False, na_values=[], float_precision="round_trip")
                     raw = df.to_dict("records")
                     with open(out_file + ".stats") as f:
                         stats = json.load(f)
@@ -220,6 +220,8 @@ def run_once(spec, balancer=None):
                                 r2["rules"] = [r2["rules"]]
                         if r2.get("confidence") == "":
                             r2["confidence"] = None
+                        elif isinstance(r2.get("confidence"), str):
+                            r2["confidence"] = float(r2["confidence"])
                         rows.append(r2)
                 else:
                     bal = balancer if balancer is not None else make_balancer(cfg)
